@@ -368,8 +368,8 @@ pub fn run(a: &Args) {
         return;
     }
     if a.shard == 0 {
-        flush_single(&mut r, a);
-        flush_all(&mut r, a);
+        guarded(&mut r, "C11|tlb::flush|unexpected-panic", || "flush".into(), |r| flush_single(r, a));
+        guarded(&mut r, "C11|tlb::flush_all|unexpected-panic", || "flushall".into(), |r| flush_all(r, a));
     }
     // all 4096 PCIDs x 4 kinds
     let addrs = canon();
@@ -377,9 +377,10 @@ pub fn run(a: &Args) {
         if p as usize % a.nshards != a.shard {
             continue;
         }
-        pcid_case(&mut r, p, addrs[p as usize % addrs.len()], p % 64 == 0 || a.thorough());
+        let (ad, st) = (addrs[p as usize % addrs.len()], p % 64 == 0 || a.thorough());
+        guarded(&mut r, "C11|flush_pcid|unexpected-panic", || format!("pcid {} {:#x} {}", p, ad, st), |r| pcid_case(r, p, ad, st));
     }
-    invlpgb_all(&mut r, a);
+    guarded(&mut r, "C11|Invlpgb|unexpected-panic", || "invlpgb".into(), |r| invlpgb_all(r, a));
     r.states = r.evals;
     r.sample("pcid 4095 0xffff800000000000 false -> [Invpcid(0, 0xfff, 0xffff800000000000)]".into());
     r.sample("flushall 0x50a5 true -> [ReadCr(3, 0x50a5), WriteCr(3, 0x50a5)]".into());
